@@ -487,6 +487,105 @@ def a_helper_kw(x, y):
 def b_helper_kw(x, y):
     return a_helper(x=x, y=y)
 
+def _gen_windows(lo, hi, hop, width, partial):
+    n = int((hi - lo) / hop) + 1
+    for i in range(n):
+        a = lo + i * hop
+        if a >= hi:
+            return
+        b = a + width
+        if b > hi:
+            if not partial:
+                return
+            b = hi
+        yield a, b
+
+def a_gen_return(lo, hi, hop, width, partial, f):
+    n = int((hi - lo) / hop) + 1
+    for i in range(n):
+        a = lo + i * hop
+        if a >= hi:
+            break
+        b = a + width
+        if b > hi and not partial:
+            break
+        b = min(b, hi)
+        yield f(a, b)
+def b_gen_return(lo, hi, hop, width, partial, f):
+    for a, b in _gen_windows(lo, hi, hop, width, partial):
+        yield f(a, b)
+
+def _gen_skip(lo, hi, hop, n):
+    for i in range(n):
+        a = lo + i * hop
+        if a >= hi:
+            continue
+        yield a
+
+def a_neq_gen_stop(lo, hi, hop, n, f):
+    for i in range(n):
+        a = lo + i * hop
+        if a >= hi:
+            break
+        yield f(a)
+def b_neq_gen_stop(lo, hi, hop, n, f):
+    for a in _gen_skip(lo, hi, hop, n):
+        yield f(a)
+
+def a_counted_while(n, f):
+    out = []
+    for i in range(n):
+        out.append(f(i))
+    return out
+def b_counted_while(n, f):
+    out = []
+    i = 0
+    while i < n:
+        out.append(f(i))
+        i += 1
+    return out
+
+def a_join_fstr(a, b):
+    return f"seg:{a}:{b}"
+def b_join_fstr(a, b):
+    return ":".join(["seg", str(a), str(b)])
+
+def a_minmax_ite(x, lo, hi):
+    return max(x, lo), min(x, hi)
+def b_minmax_ite(x, lo, hi):
+    return (lo if x < lo else x), (hi if hi < x else x)
+
+def a_gen_display(f, p, q, t):
+    u = f(p, t)
+    v = f(q, t)
+    return u, v
+def b_gen_display(f, p, q, t):
+    u, v = (f(g, t) for g in (p, q))
+    return u, v
+
+def a_int_fold(b):
+    return b[0], b[2]
+def b_int_fold(b):
+    axis = 0
+    return b[axis], b[axis + 2]
+
+def a_dict_call(x, y):
+    return {"a": x, "b": y}
+def b_dict_call(x, y):
+    return dict(a=x, b=y)
+
+def _clamp_opt(value, lower=None, upper=None):
+    if lower is not None and lower > value:
+        return lower
+    if upper is not None and upper < value:
+        return upper
+    return value
+
+def a_clamp_helper(x, t):
+    return max(x - t, 0)
+def b_clamp_helper(x, t):
+    return _clamp_opt(x - t, lower=0)
+
 def a_neq_option(m, xs):
     from scipy.sparse.csgraph import connected_components
     n, labels = connected_components(m)
@@ -506,8 +605,9 @@ EQUAL = ["helper", "raise_in_helper", "ite", "single_exit", "loop_append", "dict
          "partial", "format", "match", "augadd", "display_append", "dict_update", "slice", "gen_helper", "takewhile", "table",
          "record_methods", "any_display", "yield_chain", "unroll", "or_none", "demorgan", "map_fused", "cond_list",
          "search_loop", "comp_display", "star_display", "map_display", "dict_values", "dict_setitem", "empty_appends", "extend_comp",
-         "multi_fill", "local_gen", "zip_display", "search_preset", "cond_record", "local_call", "explicit_defaults", "guarded_loop", "isinstance_tuple", "for_else", "range_spelled", "fancy_zip", "helper_kw"]
-DIFFERENT = ["neq_filter", "neq_later_mutation", "neq_order", "neq_search_default", "neq_option"]
+         "multi_fill", "local_gen", "zip_display", "search_preset", "cond_record", "local_call", "explicit_defaults", "guarded_loop", "isinstance_tuple", "for_else", "range_spelled", "fancy_zip", "helper_kw",
+         "gen_return", "counted_while", "join_fstr", "minmax_ite", "gen_display", "int_fold", "dict_call", "clamp_helper"]
+DIFFERENT = ["neq_filter", "neq_later_mutation", "neq_order", "neq_search_default", "neq_option", "neq_gen_stop"]
 
 
 def _alpha(t, mp):
@@ -525,8 +625,8 @@ def _alpha(t, mp):
     if t and t[0] == "alloc" and len(t) == 3:
         mp.setdefault(t[2], f"A{len(mp)}")
         return ("alloc", t[1], mp[t[2]])
-    if t and t[0] == "and" and isinstance(t[1], tuple):
-        return ("and", tuple(sorted((_alpha(c, mp) for c in t[1]), key=repr)))
+    if t and t[0] in ("and", "or") and isinstance(t[1], tuple) and len(t) == 2:
+        return (t[0], tuple(sorted((_alpha(c, mp) for c in t[1]), key=repr)))
     return tuple(_alpha(c, mp) for c in t)
 
 
@@ -535,7 +635,7 @@ def signature(summ):
     for e in summ.events:
         if e.kind in ("return", "raise", "yield"):
             pass
-    for e in summ.returns + summ.raises + summ.yields:
+    for e in summ.returns + summ.raises + summ.yields + [e for e in summ.events if e.kind == "break"]:
         mp = {}
         out.append((e.kind, repr(_alpha(e.live, mp)), repr(_alpha(e.term, mp))))
     return sorted(out)
